@@ -70,7 +70,7 @@ ARGS = {
     '!': [('1', Fr(1)), ('0', Fr(0)), ('2.5', Fr(5, 2)), ('70000', Fr(70000)), ('"s"', ('err', 13))],
     '%': [('1', Fr(1)), ('0', Fr(0)), ('2.6', Fr(3)), ('70000', ('err', 6)), ('1E10', ('err', 6)),
           ('"s"', ('err', 13))],
-    '$': [('"s"', 's'), ('""', ''), ('1', ('err', 13))],
+    '$': [('"s"', 's'), ('""', ''), ('1', ('err', 13)), ('G$+"t"', 'ht')],
     '#': [('1', Fr(1)), ('0', Fr(0)), ('2.5', Fr(5, 2)), ('"s"', ('err', 13))],
 }
 ARGS_SMALL = {
@@ -283,6 +283,12 @@ def execute(box, lines, direct, fresh=False):
     api = {}
     for name, _ in GLOBALS:
         api[name] = s.get_variable(name.encode('ascii'))
+    # nothing of the call may linger: reset the string space and collect
+    for stmt in (b'CLEAR', b'X$="a"+"b":X=FRE("")'):
+        r = H.run(s, stmt)
+        if r.exc is not None:
+            box.s = None
+            return dict(exc=r.exc, out=out, err=None)
     return dict(exc=None, out=out, err=err, api=api)
 
 
